@@ -313,7 +313,7 @@ func c12Oracle(ex *c12Exec, expectBubble bool) []c12Finding {
 
 // ---------------------------------------------------------------- scenario generation
 
-var c12Stores = []string{"nacc", "rmap", "ctl", "nstruct", "rstruct", "nmap"}
+var c12Stores = []string{"nstruct0", "nacc", "rmap", "ctl", "nstruct", "rstruct", "nmap"}
 
 func c12Gen(r *kit.Rng) *c12Scenario {
 	sk := store.Variant(r, c12Stores[r.Intn(len(c12Stores))])
